@@ -10,7 +10,7 @@ from common.shard import ShardResult, run_shards
 from engines import irgen
 from engines.irlib import World, execute, dump_impl, canon_model_dump, oracle, prepare, cleanup
 
-MODULES = {"C01": ["Spydr.IR.Props.C01"], "C02": ["Spydr.IR.Props.C02"], "C14": ["Spydr.IR.Props.C14"]}
+MODULES = {"C01": ["Spydr.IR.Props.C01"], "C02": ["Spydr.IR.Props.C02"], "C14": ["Spydr.IR.Props.C14", "Spydr.IR.Props.C14Names"]}
 from registry import META
 THEOREMS = {p: META[p]["theorems"] for p in ("C01", "C02", "C14") if p in META}
 PROFILE = {"C01": "c01", "C02": "c02", "C14": "c14"}
@@ -31,8 +31,24 @@ def snapshot(world):
     return {"dump": d, "data": data}
 
 
-class Mismatch(Exception):
-    pass
+def positional_wires(world, op, after=False):
+    """for `instance.reference = other definition` on an already referenced instance: the wire of the outer
+    pin at every (port position, bit position)"""
+    if op["t"] != "setRef" or op.get("d") is None:
+        return None
+    inst = world.objs["instance"].get(op["i"])
+    if inst is None or inst._reference is None:
+        return None
+    if not after and inst._reference is None:
+        return None
+    out = []
+    for p in inst._reference._ports:
+        row = []
+        for q in p._pins:
+            o = inst._pins.get(q)
+            row.append(None if o is None else world.label(o._wire, "wire"))
+        out.append(row)
+    return out
 
 
 def run_script(ops_or_len, rng, profile, drv, res, pid, record=None, check_every=True):
@@ -51,6 +67,7 @@ def run_script(ops_or_len, rng, profile, drv, res, pid, record=None, check_every
         script.append(op)
         tok = prepare(world, op)
         before = snapshot(world)
+        repoint_before = positional_wires(world, op)
         oprng = random.Random(stable_hash(op))
         out = execute(world, op, oprng, tok)
         world.note_outer_pins()
@@ -69,6 +86,12 @@ def run_script(ops_or_len, rng, profile, drv, res, pid, record=None, check_every
                 what = [kk for kk in after["dump"] if after["dump"][kk] != before["dump"].get(kk)]
                 findings.append({"kind": "spec", "prop": "C14", "signature": "%s.refused_%s.state_changed" % (op["t"], out),
                                  "step": k, "detail": "refused call changed %s" % (what or "data")})
+        # --- P: re-pointing to a shape-compatible definition keeps every connection on the corresponding pin (C02)
+        if repoint_before is not None and out == "ok":
+            now = positional_wires(world, op, after=True)
+            if now != repoint_before:
+                findings.append({"kind": "spec", "prop": "C02", "signature": "setRef.repoint.connection_moved", "step": k,
+                                 "detail": "wires by (port position, bit) before %s after %s" % (repoint_before, now)})
         # --- P on the implementation: statement-level oracle (C01/C02)
         for clause, detail in oracle(world):
             prop = "C02" if clause.startswith(C02_CLAUSES) else "C01"
